@@ -162,6 +162,9 @@ type ExploreSummary struct {
 	Outcomes map[string]int64 `json:"outcomes"`
 	MaxPts   int              `json:"max_choice_points"`
 	Capped   bool             `json:"capped"`
+	States   int64            `json:"distinct_states_visited"` // happens-before fingerprints x running thread, summed over worker shards
+	Pruned   int64            `json:"executions_cut_at_known_state"`
+	Sample   []int            `json:"sample_schedule,omitempty"` // the choice sequence of the default execution
 }
 
 // ExploreAll explores every schedule of a harness within the bound, sharded
@@ -210,6 +213,8 @@ func ExploreAllOpt(r *report.Report, name string, arg interface{}, bound, points
 			sum.MaxPts = x.MaxPts
 		}
 		sum.Capped = sum.Capped || x.Capped
+		sum.States += x.States
+		sum.Pruned += x.Pruned
 		for _, v := range x.Viols {
 			r.Violate(*v)
 		}
@@ -218,6 +223,7 @@ func ExploreAllOpt(r *report.Report, name string, arg interface{}, bound, points
 		}
 	}
 	merge(&roots[0])
+	sum.Sample = roots[0].Sample
 	kids := roots[0].Children
 	var jobs []interface{}
 	for _, k := range kids {
@@ -237,6 +243,8 @@ func ExploreAllOpt(r *report.Report, name string, arg interface{}, bound, points
 	})
 	r.Add("traces_validated_against_impl", sum.Execs)
 	r.Add("transitions", sum.Execs)
+	r.Add("states", sum.States)
+	r.Add("executions_cut_at_known_state", sum.Pruned)
 	if sum.Capped {
 		r.Exhaustive = false
 	}
